@@ -26,6 +26,8 @@ mod c_boxp;
 mod c_asm;
 #[cfg(feature = "c_time")]
 mod c_time;
+#[cfg(feature = "c_time")]
+mod c_e2e;
 #[cfg(feature = "c_year")]
 mod c_year;
 #[cfg(feature = "c_fixed")]
@@ -157,6 +159,8 @@ fn main() {
         "asm" => if replay { replay_loop(&mut out, c_asm::replay_line) } else { c_asm::run(&opts, &mut out) },
         #[cfg(feature = "c_time")]
         "time" => if replay { replay_loop(&mut out, c_time::replay_line) } else { c_time::run(&opts, &mut out) },
+        #[cfg(feature = "c_time")]
+        "e2e" => if replay { replay_loop(&mut out, c_e2e::replay_line) } else { c_e2e::run(&opts, &mut out) },
         #[cfg(feature = "c_fixed")]
         "fixed" => if replay { replay_loop(&mut out, c_fixed::replay_line) } else { c_fixed::run(&opts, &mut out) },
         #[cfg(feature = "c_year")]
